@@ -139,10 +139,10 @@ func c16P(w *caseWriter, fnS, namesS, opts, ret, rawhex string) {
 // ---- Args / Obj ------------------------------------------------------------------
 
 type target struct {
-	key string // Obj only
+	key  string // Obj only
 	nil_ bool
-	t   *tnode
-	cur string // JSON of the current value
+	t    *tnode
+	cur  string // JSON of the current value
 }
 
 func parseTargets(s string, keyed bool) []target {
